@@ -9,11 +9,12 @@ import z3
 
 
 class Normaliser:
-    def __init__(self, P, prod_defs, red_defs, expand_limit=600, max_degree=24):
+    def __init__(self, P, prod_defs, red_defs, expand_limit=600, max_degree=24, subst=None):
         self.P = P
         self.prod_defs = prod_defs
         self.red_defs = red_defs
         self.memo = {}
+        self.subst = subst or {}     # z3 var id -> int, equalities decided on the path (e.g. guard values)
         self.keep = []          # keep terms alive so z3 ids stay unique
         self.prod_atoms = {}
         self.expand_limit = expand_limit
@@ -129,6 +130,9 @@ class Normaliser:
             return acc
         if k == z3.Z3_OP_UNINTERPRETED and t.num_args() == 0:
             tid = t.get_id()
+            if tid in self.subst:
+                v = self.subst[tid] % self.P
+                return {(): v} if v else {}
             if tid in self.red_defs:
                 return self.canon(self.red_defs[tid][1])
             if tid in self.prod_defs:
